@@ -23,6 +23,7 @@ Template directives (lines starting with `//@`):
       //@closure <n> <name> | <text>    rename `_` parameter of the n-th closure / splice return contract
       //@replace-call "<tokens>" => "<text>"   (only for macro-like forms listed in DESIGN R11)
       //@bottom          lines spliced just before the body's closing brace
+      //@tailbind <name> the body's tail expression E becomes `let <name> = E;` + the //@bottom lines + `<name>`
   //@end
 
 Everything else is copied verbatim.  Output: the assembled text and a line map
@@ -611,6 +612,37 @@ class FnRewriter:
             if toks[i].text == "#" and toks[i + 1].text == "[" and toks[i + 2].text in ("allow", "inline"):
                 self.edit(toks[i].start, toks[self.match[i + 1]].end, "", "R8")
 
+    def r16_tailbind(self):
+        """R16: the body's tail expression `E` becomes `let <name> = E; <//@bottom lines> <name>` (same value, same order of evaluation)"""
+        name = self.opts.get("tailbind")
+        if not name:
+            return
+        toks = self.toks
+        bo, bc = self.body_range()
+        # last statement start at depth 1
+        i = None
+        k = bo + 1
+        while k < bc:
+            p = toks[k - 1]
+            if p.kind == "punct" and p.text in (";", "{", "}"):
+                i = k
+            t = toks[k]
+            if t.kind == "punct" and t.text in ("(", "[", "{"):
+                k = self.match[k] + 1
+                continue
+            k += 1
+        if i is None or toks[bc - 1].text in (";", "}"):
+            raise ExtractError("lost anchor: tail expression of %s" % self.name)
+        self.edit(toks[i].start, toks[i].start, "let %s = " % name, "R16")
+        self.edit(toks[bc - 1].end, toks[bc - 1].end, ";", "R16")
+        self.rule("R16")
+        for sec in self.sections:
+            if sec["kind"] == "bottom":
+                sec["lines"] = list(sec["lines"]) + [name]
+                break
+        else:
+            self.sections.append(dict(kind="bottom", lines=[name], label="bottom"))
+
     def splice_sections(self):
         toks = self.toks
         bo, bc = self.body_range()
@@ -679,6 +711,7 @@ class FnRewriter:
         self.replace_calls()
         self.r11_anyhow()
         self.drop_attrs_in_body()
+        self.r16_tailbind()
         self.splice_sections()
         return self.render(self.toks[self.item["start"]].start, self.toks[self.item["end"]].end)
 
@@ -1054,6 +1087,9 @@ class Assembler:
                             cur = None
                         elif c2 == "enumerate":
                             opts["enumerate"].add(int(p2[1]))
+                            cur = None
+                        elif c2 == "tailbind":
+                            opts["tailbind"] = p2[1]
                             cur = None
                         elif c2 == "itermapcollect":
                             opts["itermapcollect"].add(int(p2[1]))
